@@ -78,7 +78,9 @@ class Cond:
         """content of a skipped group: must have no effect at all"""
         ch = self.ch
         return ch.choice(['#error never', '#include "does_not_exist.h"', '#bogus directive', '#define X 99', '#undef Y',
-                          '#if 1 / 0\n#endif', '#elif_typo', '#line 0', '#pragma once', '#define Z(', '#if (\n#endif', '#ifdef\n#endif', 'plain'])
+                          '#if 1 / 0\n#endif', '#elif_typo', '#line 0', '#pragma once', '#define Z(', '#if (\n#endif', '#ifdef\n#endif', 'plain',
+                          # null directives (6.10.7) followed by a text line that starts with a directive name
+                          '#\nendif', '#\nelse', '# \nif 1', '#\nelif 1', '#\nifdef X', '# /* c */\nendif x'])
 
     def group(self, d, live):
         ch = self.ch
